@@ -39,7 +39,7 @@ struct G<'a> {
     frag: bool,
 }
 
-const LET_TYS: [T; 10] = [T::I, T::I, T::I, T::B, T::B, T::O, T::E, T::R, T::L, T::S];
+const LET_TYS: [T; 11] = [T::I, T::I, T::I, T::B, T::B, T::O, T::E, T::R, T::R, T::L, T::S];
 
 impl G<'_> {
     fn fresh(&mut self, t: T, assignable: bool) -> usize {
@@ -67,6 +67,23 @@ impl G<'_> {
     fn spend(&mut self) -> bool {
         self.budget -= 1;
         self.budget > 0
+    }
+
+    /// A literal of `R` from the field expressions in the order in which they were generated
+    /// (= the order in which they are written, so call-site keys ascend in source order); the
+    /// fields they belong to are a random one of the six orders, independent of the declaration.
+    fn record(&mut self, es: Vec<E>) -> E {
+        let perm = *self.p.pick(&PERMS);
+        E::Record(false, perm.iter().copied().zip(es).collect())
+    }
+
+    /// Where the context fixes the type (annotated `let`, assignment to a variable of type `R`)
+    /// or the literal may keep its own anonymous type (`{ … }.f`), write it without the name.
+    fn maybe_anon(&mut self, e: E) -> E {
+        match e {
+            E::Record(false, fs) if self.p.chance(1, 2) => E::Record(true, fs),
+            other => other,
+        }
     }
 
     fn int_lit(&mut self) -> E {
@@ -101,7 +118,10 @@ impl G<'_> {
                 1 => E::Ctor(1, vec![self.int_lit(), self.int_lit()]),
                 _ => E::Ctor(2, vec![]),
             },
-            T::R => E::Record(vec![self.int_lit(), self.int_lit()]),
+            T::R => {
+                let es = vec![self.int_lit(), self.int_lit(), self.int_lit()];
+                self.record(es)
+            }
             T::L => E::List((0..self.p.below(3)).map(|_| self.int_lit()).collect()),
             T::V => unreachable!(),
         }
@@ -137,7 +157,8 @@ impl G<'_> {
             }
             T::R => {
                 let (k, v, w) = (self.k(), self.leaf(T::I), self.leaf(T::I));
-                E::Record(vec![E::Host(H_EMIT, vec![k, v]), w])
+                let (k2, v2) = (self.k(), self.leaf(T::I));
+                self.record(vec![E::Host(H_EMIT, vec![k, v]), w, E::Host(H_EMIT, vec![k2, v2])])
             }
             T::V => unreachable!(),
         }
@@ -191,7 +212,9 @@ impl G<'_> {
                 }
                 37..=48 => {
                     let mut r = self.expr(T::I, d1);
-                    if !matches!(r, E::Host(..) | E::Call(..) | E::Field(..)) && !matches!(r, E::Var(x) if self.annotated[x]) {
+                    // (a field of an anonymous literal with a type of its own is as open as the literal in it)
+                    let own_type = matches!(&r, E::Field(rec, _) if matches!(**rec, E::Record(true, _)));
+                    if own_type || !matches!(r, E::Host(..) | E::Call(..) | E::Field(..)) && !matches!(r, E::Var(x) if self.annotated[x]) {
                         // a literal (or a block ending in one) has type `{integer}`, which has no methods:
                         // give the receiver a definite type
                         r = E::Host(H_EMIT, vec![self.k(), r]);
@@ -215,7 +238,8 @@ impl G<'_> {
                 }
                 77..=90 => {
                     let r = self.expr(T::R, d1);
-                    E::Field(Box::new(r), self.p.below(2) as usize)
+                    let r = self.maybe_anon(r);
+                    E::Field(Box::new(r), self.p.below(FIELDS.len() as u64) as usize)
                 }
                 _ => self.eleaf(T::I),
             },
@@ -295,8 +319,8 @@ impl G<'_> {
                 _ => E::Ctor(2, vec![]),
             },
             T::R => {
-                let (a, b) = (self.expr(T::I, d1), self.expr(T::I, d1));
-                E::Record(vec![a, b])
+                let (a, b, c) = (self.expr(T::I, d1), self.expr(T::I, d1), self.expr(T::I, d1));
+                self.record(vec![a, b, c])
             }
             T::L => match self.p.below(10) {
                 0..=6 => {
@@ -315,9 +339,24 @@ impl G<'_> {
     fn unit_expr(&mut self, d: u32) -> E {
         let asg = self.assignable();
         match self.p.below(100) {
+            // the target is a field of a variable of type `R` (`x.f = e`, `x.f op= e`)
+            24..=29 | 48..=54 if asg.iter().any(|x| self.var_tys[*x] == T::R) => {
+                let recs: Vec<usize> = asg.iter().copied().filter(|x| self.var_tys[*x] == T::R).collect();
+                let x = *self.p.pick(&recs);
+                let i = self.p.below(FIELDS.len() as u64) as usize;
+                if self.p.chance(1, 2) {
+                    let v = self.expr(T::I, d);
+                    E::AssignF(x, i, Box::new(v))
+                } else {
+                    let op = *self.p.pick(&[Op::Add, Op::Sub, Op::Mul]);
+                    let v = self.expr(T::I, d);
+                    E::CAssignF(op, x, i, Box::new(v))
+                }
+            }
             0..=29 if !asg.is_empty() => {
                 let x = *self.p.pick(&asg);
                 let v = self.expr(self.var_tys[x], d);
+                let v = self.maybe_anon(v);
                 E::Assign(x, Box::new(v))
             }
             30..=54 => {
@@ -424,6 +463,7 @@ impl G<'_> {
                 0..=34 => {
                     let ty = *self.p.pick(&LET_TYS);
                     let e = self.expr(ty, d);
+                    let e = self.maybe_anon(e);
                     let x = self.fresh(ty, true);
                     stmts.push(S::Let(x, e));
                 }
